@@ -91,6 +91,14 @@ def run(chk):
             chk.violation('impl-vs-oracle', 'cell measures sum to %s, the box measure is %s %s' % (fl(sum(vols)), fl(tol.boxvol), where), rp,
                           key='sum' + (' gen-on-wall' if any(gen_on_wall(inp, i) for i in range(inp.n)) else ''))
         nvo += 1
+        # the same measures from cells whose face information was derived, discarded and derived again (3D)
+        if 'vrt' in impl:
+            v2 = [hex_to_frac(x) for x, _ in impl['vrt']]
+            if any(v is None for v in v2) or len(v2) != inp.n or abs(sum(v2) - tol.boxvol) > tol.vol * 10 or any(not v > 0 for v in v2):
+                chk.violation('impl-vs-oracle', 'measures of the cells after with_faces -> discard_faces -> with_faces sum to %s, the box measure is %s %s'
+                              % (fl(sum(v for v in v2 if v is not None)), fl(tol.boxvol), where), rp, key='sum-reconverted' + (' gen-on-wall' if any(gen_on_wall(inp, i) for i in range(inp.n)) else ''))
+            if any(df != 0 for _, df in impl['vrt']):
+                chk.violation('impl-vs-impl', 'a cell has a different number of faces after with_faces -> discard_faces -> with_faces %s' % where, rp, key='faces-reconverted')
     chk.extra_cov['volume_integral_records'] = nvo
 
     # ---- large inputs of very uneven density (op recip: 300 … 1500 generators, blobs + isolated generators, voids in shells,
